@@ -100,6 +100,26 @@ theorem generated_branch_measures (F : Py.Fld K) (norm : List K → K) {n : Nat}
   ⟨pathLength_refines norm ⟨hx, hy, hz⟩ br hb, branchPathlength_refines norm ⟨hx, hy, hz⟩ br hb, contraction_refines F norm ⟨hx, hy, hz⟩ br hb,
    taper1_refines F norm ⟨hx, hy, hz⟩ hr br hb, taper2_refines F hr br hb⟩
 
+/-- **Length / SectionArea / Surface / Volume** of a compartment `[a, b]` (parent `a`, node `b`): length = `0 + norm (pos b − pos a)`; section area of a
+node = π·r²; with the option `compartment_point = 0` the radius of surface / volume is read at `a`, with `-1` (the default) at `b`:
+surface = 2·π·r·length, volume = π·r²·length -/
+theorem generated_compartment_measures (F : Py.Fld K) (norm : List K → K) (pi : K) {n : Nat} {xs ys zs rs : List K}
+    (hx : xs.length = n) (hy : ys.length = n) (hz : zs.length = n) (hr : rs.length = n) (a b : Int)
+    (ha : 0 ≤ a ∧ a < (n : Int)) (hb : 0 ≤ b ∧ b < (n : Int)) :
+    lm_length norm xs ys zs [a, b] = some ((0 : K) + norm (vsub (pos xs ys zs b) (pos xs ys zs a))) ∧
+    lm_surface F norm pi 0 xs ys zs rs [a, b] = some (surface F norm pi xs ys zs rs [a, b] a) ∧
+    lm_surface F norm pi (-1) xs ys zs rs [a, b] = some (surface F norm pi xs ys zs rs [a, b] b) ∧
+    lm_volume norm pi 0 xs ys zs rs [a, b] = some (volume norm pi xs ys zs rs [a, b] a) ∧
+    lm_volume norm pi (-1) xs ys zs rs [a, b] = some (volume norm pi xs ys zs rs [a, b] b) ∧
+    (∀ k : Nat, k < n → lm_section_area pi rs (k : Int) = some (pi * ((1 : K) * rs.getD k default * rs.getD k default))) := by
+  have hv : ValidBranch n [a, b] := by
+    intro i hi; simp only [List.mem_cons, List.not_mem_nil, or_false] at hi; rcases hi with rfl | rfl <;> assumption
+  have hc : Cols n xs ys zs := ⟨hx, hy, hz⟩
+  refine ⟨?_, surface_refines F norm pi 0 hc hr _ hv a (comp_point a b).1, surface_refines F norm pi (-1) hc hr _ hv b (comp_point a b).2,
+    volume_refines norm pi 0 hc hr _ hv a (comp_point a b).1, volume_refines norm pi (-1) hc hr _ hv b (comp_point a b).2, ?_⟩
+  · rw [length_refines norm hc _ hv]; simp [branchLength, sumFrom, dist]
+  · intro k hk; simpa [sectionArea] using sectionArea_refines pi rs k (by omega)
+
 /-- the branch-level theorems apply to the branch the GENERATED `Tree.Node.branch` returns for any node of a well-formed tree (its members are
 nodes of the tree): **contraction of a node's branch** = distance(first, last) / path length of `nodeBranch` -/
 theorem generated_contraction_of_node_branch (F : Py.Fld K) (norm : List K → K) {xs ys zs : List K} (pids : List Int) (hw : C07.WF pids)
@@ -140,6 +160,9 @@ example : path_length lgNorm lgX lgY lgZ [1, 3, 4] = some 6 ∧ branchLength lgN
     lm_contraction lgF lgNorm lgX lgY lgZ [1, 3, 4] = some 1 ∧ lm_contraction lgF lgNorm lgX lgY lgZ [] = none ∧
     lm_contraction lgF lgNorm lgX lgY lgZ [2] = none ∧
     lm_taper_1 lgF lgNorm lgX lgY lgZ lgR [0, 1] = some 2 ∧ lm_taper_2 lgF lgR [0, 1] = some 0 := by decide +kernel
+example : lm_length lgNorm lgX lgY lgZ [3, 4] = some 5 ∧ lm_section_area 3 lgR 1 = some 12 ∧
+    lm_volume lgNorm 3 0 lgX lgY lgZ lgR [3, 4] = some 60 ∧ lm_volume lgNorm 3 (-1) lgX lgY lgZ lgR [3, 4] = some 15 ∧
+    lm_surface lgF lgNorm 3 0 lgX lgY lgZ lgR [3, 4] = some 60 ∧ lm_surface lgF lgNorm 3 (-1) lgX lgY lgZ lgR [3, 4] = some 30 := by decide +kernel
 example : C07.WF lgP := by
   refine ⟨rfl, ?_, ?_⟩
   · intro k h hk; have : k = 1 ∨ k = 2 ∨ k = 3 ∨ k = 4 := by simp [lgP] at h; omega
